@@ -32,6 +32,10 @@ DivisorInv == /\ kind = "assertion"  => AssertionDivisorOK(a, n) /\ WellFormed(a
 Others == WellFormedSet(n, {0, 1})
 OverlapInv == (kind = "assertion" /\ n <= PairMax) => \A b \in Others : OverlapOK(a, b, n) /\ GroupingOK(a, b, n)
 
+\* sets of two assertions: refused exactly when they name a common cell, both kept otherwise
+DedupFirst == IOEnv.AIR_DEDUPFIRST = "1"
+PrepareInv == (kind = "assertion" /\ n <= PairMax) => \A b \in Others : PrepareOK(a, b, n, DedupFirst)
+
 \* the b's that a overlaps with, by the declarative definition (what the harness must observe)
 OverlapRow == {b \in Others : b.col = a.col /\ StepsOf(a, n) \cap StepsOf(b, n) # {}}
 
